@@ -83,7 +83,7 @@ def specHist (h : List Op) : List Outcome := specHistFrom [] h
 time.Duration by `time.Second`, so the client's timeout is 10⁹ times the configured one (and wraps
 around int64 from about 9.2 s on, going negative for e.g. 10 s). Inside the property's quantifier:
 `Timeout` is one of the five options it enumerates. Pinned by cmd/testdata/rest.shootrest.client.go.golden. -/
-def inInt64 (d : Int) : Prop := -(2 ^ 63 : Int) ≤ d ∧ d < 2 ^ 63
+def inInt64 (d : Int) : Prop := -9223372036854775808 ≤ d ∧ d < 9223372036854775808   -- [-2^63, 2^63)
 def F_timeout (c : RestConf) : Bool := c.timeout != 0
 
 end ShootVerif.Runtime
